@@ -750,6 +750,9 @@ def _decorate_toplevel(fn):
                 pass
             return fn(y)(context, *args, **kw)
 
+        # the def's own signature decides which names of the context
+        # become its arguments when it is rendered on its own
+        go.__wrapped__ = render_fn
         return go
 
     return decorate_render
@@ -881,7 +884,9 @@ def _render(template, callable_, args, data, as_unicode=False):
 
 
 def _kwargs_for_callable(callable_, data):
-    argspec = compat.inspect_getargspec(callable_)
+    argspec = compat.inspect_getargspec(
+        getattr(callable_, "__wrapped__", callable_)
+    )
     # for normal pages, **pageargs is usually present
     if argspec[2]:
         return data
